@@ -118,7 +118,7 @@ Proof.
     pose proof (fold_register_parsed_norm subs IH Hwf0 c1 c2 Hn) as [G1 G2].
     destruct sf; [split; assumption|].
     unfold ntab. cbn [cache_with c_files c_subs]. split; [exact G1|].
-    rewrite G2, (subbuild_key_norm f a k Hwf Hwf1).
+    rewrite G2, (subbuild_key_norm f a k Hwf Hwf2).
     exact (subs_set_map_norm _ _ (OSubbuild f a k subs r ra false)).
 Qed.
 
